@@ -418,6 +418,17 @@ Definition slice_of (l : list aev) (lo hi : Z) (rv : bool) : list aev :=
 Record wev := mkW { v_sum : N; v_desc : option N; v_rem : option (list reminder); v_allday : option bool;
                     v_s : Z; v_e : Z }.
 
+(* zone identity: the harness gives distinct names distinct tables, so equality of tables is
+   equality of names (str(ZoneInfo) is its key; str(timezone.utc) = "UTC") *)
+Definition zone_eqb (z1 z2 : zone) : bool :=
+  (off0 z1 =? off0 z2) &&
+  (fix go (l1 l2 : list (Z * Z)) : bool :=
+     match l1, l2 with
+     | [], [] => true
+     | (t1, o1) :: r1, (t2, o2) :: r2 => (t1 =? t2) && (o1 =? o2) && go r1 r2
+     | _, _ => false
+     end) (trans z1) (trans z2).
+
 (* _infer_is_all_day *)
 Definition infer_all_day (s e : Z) (tz : option zone) : bool :=
   let z := tz_or_utc tz in
@@ -520,12 +531,14 @@ Definition add_recurring (a : astate) (p : wpat) : astate * list wres :=
                         (TRule :: (if p_interval p =? 1 then [] else [TRule]) ++
                          (match p_byday p with [] => [] | _ => [TRule] end)) in
   let s := p_anchor p in
-  let e := s + p_dur p in
+  (* the duration runs on the pattern's local clock (wall-clock addition, fold = 0) *)
+  let e := wall_to_utc (p_zone p) (utc_to_wall (p_zone p) s + p_dur p) false in
   let '(a1, zr) := if p_dur p =? DAY then cal_tz a else (a, Some None) in
   match zr with
   | None => (a1, [failed])
   | Some ctz =>
-    let ad := (p_dur p =? DAY) && infer_all_day s e ctz in
+    (* all-day only on the calendar's own local clock: str(pattern.zone) == str(calendar zone) *)
+    let ad := (p_dur p =? DAY) && zone_eqb (p_zone p) (tz_or_utc ctz) && infer_all_day s e ctz in
     let rc := mkR (p_weekly p) (p_interval p) (p_byday p) line [] in
     let q := if ad then mkQ (Some (p_sum p)) None None [] true (local_date ctz s) (local_date ctz e) (Some rc)
              else mkQ (Some (p_sum p)) None (Some (p_zone p)) [] false s e (Some rc) in
